@@ -348,6 +348,9 @@ def main(path):
                     out['detail'] += f' at line {tb[-1].lineno} of {tb[-1].name}'
         else:
             out['detail'] = f'obligation kind {kind} is not replayable'
+    if out.get('confirmed') is False and ob['meta'].get('after_loop_cut'):
+        out['confirmed'] = None
+        out['detail'] += ' -- the obligation follows a loop cut by an invariant (arbitrary-iteration state): the native run from the pre-state need not pass through the state of the counter-model'
     if out.get('confirmed') is False and model.get('abstract_callees'):
         out['confirmed'] = None
         out['detail'] += ' -- the counter-model chooses values for abstract callees (' + ', '.join(model['abstract_callees']) + \
